@@ -409,7 +409,7 @@ EndCall ==
                            m_taken |-> Taken(mine), m_sent |-> sent,
                            m_via |-> Col(xfer, 1), m_offs |-> Col(xfer, 2), m_why |-> Col(xfer, 3),
                            m_tbl |-> Hdr(table), m_held |-> Len(h2)]
-                          @@ (IF rogue = "ok" THEN [same |-> TRUE] ELSE [x \in {} |-> 0])])
+                          @@ (IF rogue = "ok" THEN [same |-> (resp = PlainRes(cur))] ELSE [x \in {} |-> 0])])
     /\ cpc' = "idle"
     /\ mine' = <<>> /\ resp' = <<>> /\ xfer' = <<>> /\ sent' = <<>>
     /\ UNCHANGED <<seg, hold, attached, spc, cur, req, eng, ceng, inq, inval, ix, tx, more, respdone,
@@ -661,7 +661,7 @@ IsCall == hist' # hist /\ Last.a = "Call"
 \* (a) whatever the segment size, the advertisement pattern, the forms the client chose and
 \* its release policy, a call answers what it answers in a plain session
 SameAsPlain ==
-    [][ (IsCall /\ Last.args.cls = "ok") => Last.exp.res = PlainRes(Last.args.c) ]_vars
+    [][ (IsCall /\ Last.args.cls = "ok") => (Last.exp.res = PlainRes(Last.args.c) /\ Last.exp.same) ]_vars
 
 \* (b) once the client has released every pointer it received the table is empty
 OnlyHeldRegions ==
